@@ -1,0 +1,47 @@
+//go:build verif
+
+package router
+
+// Add-only hooks for the C19 "limiter x prefetch" check: install buckets with a negligible refill rate into
+// the RUNNING router's resourceLimiter (the configuration takes whole tokens per second only, and what a
+// sequence of queries was charged can be read off a bucket only when it does not refill meanwhile), and
+// read the tokens left. The buckets are built by the constructors initResourceLimiter uses
+// (limiter.NewClientLimiter, rate.NewLimiter); every charge still goes through router.limiterAllowN.
+
+import (
+	"net/netip"
+	"time"
+
+	"github.com/IrineSistiana/mosproxy/internal/limiter"
+	"golang.org/x/time/rate"
+)
+
+// VerifC19SetLimiter replaces the client limiter by one with the given refill rate (tokens/s, > 0) and
+// burst (default masks /24 and /48), and the global bucket by one with globalBurst tokens (0 = none).
+// Call it before the first query.
+func (v *VerifRouter) VerifC19SetLimiter(ratePerSec float64, clientBurst, globalBurst int) {
+	l := v.r.limiter
+	if l.cl != nil {
+		l.cl.Close()
+	}
+	l.cl = limiter.NewClientLimiter(limiter.ClientLimiterOpts{Limit: ratePerSec, Burst: clientBurst})
+	l.global = nil
+	if globalBurst > 0 {
+		l.global = rate.NewLimiter(rate.Limit(ratePerSec), globalBurst)
+	}
+}
+
+// VerifC19Tokens returns the tokens now in the client bucket of addr (the burst when the bucket does not
+// exist yet) and in the global bucket (-1 when there is none).
+func (v *VerifRouter) VerifC19Tokens(addr netip.Addr) (client, global float64) {
+	l := v.r.limiter
+	now := time.Now()
+	client, global = -1, -1
+	if l.cl != nil && addr.IsValid() {
+		client, _ = l.cl.VerifTokensAt(addr, now)
+	}
+	if l.global != nil {
+		global = l.global.TokensAt(now)
+	}
+	return
+}
